@@ -105,11 +105,13 @@ FORMULAS = {
     "C05": ["Gen.stockUse_is_code", "Gen.stockUpdated_is_code", "Gen.deliveries_are_code"],
     "C08": ["Gen.subBlock_is_code", "Gen.deliverCell_is_code", "Gen.settle_indus_is_code", "Gen.settle_house_is_code", "Gen.settle_same_rule",
             "Gen.presented_is_code"],
-    "C11": ["Gen.presented_is_code", "Gen.settle_same_rule"],
+    "C11": ["Gen.presented_is_code", "Gen.settle_same_rule", "Gen.capital_aggregation_is_code", "Gen.arbitrary_aggregation_is_code"],
     "C13": ["Gen.convert_impact_is_code", "Gen.convert_house_is_code", "Gen.convert_same_rule", "Gen.trackerInit_damage_is_code"],
-    "C07": ["Gen.capacity_is_code", "Gen.trackerInit_damage_is_code"],
+    "C07": ["Gen.capacity_is_code", "Gen.trackerInit_damage_is_code", "Gen.capital_aggregation_is_code", "Gen.arbitrary_aggregation_is_code",
+            "Gen.active_iff_listed", "Gen.deltaCap_is_code"],
+    "C10": ["Gen.capital_aggregation_is_code", "Gen.arbitrary_aggregation_is_code"],
     "C09": ["Gen.linear_is_code", "Gen.convexe_is_code", "Gen.convexe_scaled_is_code", "Gen.cellwise_linear_is_code",
-            "Gen.cellwise_convexe_is_code", "Gen.cellwise_convexe_scaled_is_code"],
+            "Gen.cellwise_convexe_is_code", "Gen.cellwise_convexe_scaled_is_code", "Gen.arbitrary_aggregation_is_code"],
     "C20": ["Gen.capNegative_is_code"],
 }
 # one Lean module per topic, so that a changed formula only breaks the theorems about it
@@ -126,6 +128,8 @@ FORMULA_MODULE = {
     "Gen.presented_is_code": "FormulasLedger",
     "Gen.convert_impact_is_code": "FormulasUnits", "Gen.convert_house_is_code": "FormulasUnits", "Gen.convert_same_rule": "FormulasUnits",
     "Gen.trackerInit_damage_is_code": "FormulasUnits",
+    "Gen.capital_aggregation_is_code": "FormulasDamage", "Gen.arbitrary_aggregation_is_code": "FormulasDamage",
+    "Gen.active_iff_listed": "FormulasDamage", "Gen.deltaCap_is_code": "FormulasDamage",
     "Gen.linear_is_code": "FormulasCurves", "Gen.convexe_is_code": "FormulasCurves", "Gen.convexe_scaled_is_code": "FormulasCurves",
     "Gen.cellwise_linear_is_code": "FormulasCurves", "Gen.cellwise_convexe_is_code": "FormulasCurves",
     "Gen.cellwise_convexe_scaled_is_code": "FormulasCurves",
